@@ -14,3 +14,6 @@ type CorpusType struct {
 
 // TypeCorpus is filled in types_corpus.go.
 var TypeCorpus []CorpusType
+
+// TSTypes are the types that TypeSchemas overrides are drawn from.
+var TSTypes = map[string]reflect.Type{}
